@@ -23,9 +23,11 @@
 //!      exists; markdown without id ⇒ a bundle blob exists, is JSON, and repeats the markdown and
 //!      the source cut; neither ⇒ the call fails;
 //!  (e) failure ⇒ nothing appended, no new thread listed.
+//!
+//! Not injected: storage failures (artifact store / index not writable). They are outside the
+//! property's quantifier (histories × selector choices).
 
 use std::collections::BTreeSet;
-use std::path::PathBuf;
 
 use axum::http::Method;
 use proptest::prelude::*;
@@ -40,12 +42,6 @@ use serde_json::{json, Value};
 /// artifact; without inline markdown the child then carries no resolvable summary. The comparison
 /// tolerates exactly that outcome (everything else about the request is still checked). Counted.
 const EXCLUDE_KNOWN_UNRESOLVABLE_SUMMARY: bool = true;
-/// K2: `branch`/`handoff` append `continuity_created` (and list the child) before later fallible
-/// steps (index save inside `create_continuity`, handoff bundle write); when such a step fails the
-/// call returns an error but leaves a listed child without lineage. Only reachable with an
-/// injected storage fault; the comparison tolerates exactly "failed call left one
-/// `continuity_created` line on a fresh stream" under an injected fault. Counted.
-const EXCLUDE_KNOWN_HALF_CREATED_CHILD: bool = true;
 
 const UNKNOWN_ARTIFACTS: [&str; 2] = [
     "000000000000000000000000000000000000000000000000000000000000feed",
@@ -90,17 +86,6 @@ enum Summary {
     BothExisting { md: String, choice: u16 },
 }
 
-#[derive(Debug, Clone, Copy, Serialize, Deserialize, PartialEq)]
-enum Fault {
-    None,
-    /// `<ws>/.rip/artifacts` is a regular file while the call runs
-    ArtifactsIsFile,
-    /// `<ws>/.rip/artifacts/blobs` is a regular file while the call runs
-    BlobsIsFile,
-    /// `<data>/continuities/index.json.tmp` is a directory while the call runs
-    IndexTmpIsDir,
-}
-
 #[derive(Debug, Clone, Serialize, Deserialize)]
 struct Req {
     handoff: bool,
@@ -112,7 +97,6 @@ struct Req {
     title: Option<String>,
     actor: Option<u8>,
     origin: Option<u8>,
-    fault: Fault,
     /// http only: absent optional fields are sent as explicit `null`
     explicit_nulls: bool,
     /// direct only: append a message to the child afterwards and re-check its first frames
@@ -247,16 +231,10 @@ fn req_strategy() -> BoxedStrategy<Req> {
         title_strategy(),
         proptest::option::of(0u8..3),
         proptest::option::of(0u8..3),
-        prop_oneof![
-            22 => Just(Fault::None),
-            1 => Just(Fault::ArtifactsIsFile),
-            1 => Just(Fault::BlobsIsFile),
-            1 => Just(Fault::IndexTmpIsDir),
-        ],
         (any::<bool>(), prop::bool::weighted(0.3), prop::bool::weighted(0.15)),
     )
         .prop_map(
-            |(handoff, src, sel, summary, title, actor, origin, fault, (explicit_nulls, probe_child, restart_after))| Req {
+            |(handoff, src, sel, summary, title, actor, origin, (explicit_nulls, probe_child, restart_after))| Req {
                 handoff,
                 src,
                 sel,
@@ -264,7 +242,6 @@ fn req_strategy() -> BoxedStrategy<Req> {
                 title,
                 actor,
                 origin,
-                fault,
                 explicit_nulls,
                 probe_child,
                 restart_after,
@@ -644,64 +621,6 @@ impl World {
 }
 
 // ------------------------------------------------------------------------------------------
-// storage faults (file in the way; the process runs as root, so permissions would not block)
-// ------------------------------------------------------------------------------------------
-
-struct FaultGuard {
-    blocker: Option<PathBuf>,
-    saved: Option<(PathBuf, PathBuf)>,
-}
-
-fn inject(ws: &std::path::Path, data: &std::path::Path, f: Fault) -> FaultGuard {
-    let mut g = FaultGuard { blocker: None, saved: None };
-    let target = match f {
-        Fault::None => return g,
-        Fault::ArtifactsIsFile => ws.join(".rip").join("artifacts"),
-        Fault::BlobsIsFile => ws.join(".rip").join("artifacts").join("blobs"),
-        Fault::IndexTmpIsDir => {
-            let p = data.join("continuities").join("index.json.tmp");
-            if std::fs::create_dir_all(&p).is_ok() {
-                g.blocker = Some(p);
-            }
-            return g;
-        }
-    };
-    if let Some(parent) = target.parent() {
-        let _ = std::fs::create_dir_all(parent);
-    }
-    if target.is_dir() {
-        let saved = target.with_extension("rv-saved");
-        if std::fs::rename(&target, &saved).is_ok() {
-            g.saved = Some((saved, target.clone()));
-        } else {
-            return g;
-        }
-    }
-    if std::fs::write(&target, b"in the way").is_ok() {
-        g.blocker = Some(target);
-    }
-    g
-}
-
-impl FaultGuard {
-    fn active(&self) -> bool {
-        self.blocker.is_some()
-    }
-    fn undo(self) {
-        if let Some(b) = &self.blocker {
-            if b.is_dir() {
-                let _ = std::fs::remove_dir_all(b);
-            } else {
-                let _ = std::fs::remove_file(b);
-            }
-        }
-        if let Some((saved, orig)) = &self.saved {
-            let _ = std::fs::rename(saved, orig);
-        }
-    }
-}
-
-// ------------------------------------------------------------------------------------------
 // the case
 // ------------------------------------------------------------------------------------------
 
@@ -727,7 +646,6 @@ struct Ctx {
     other_artifacts: Vec<String>,
     children: Vec<String>,
     ex_k1: bool,
-    ex_k2: bool,
     nontrivial: bool,
 }
 
@@ -745,7 +663,6 @@ fn run(case: &Case, via_http: bool) -> CaseReport {
         other_artifacts: Vec::new(),
         children: Vec::new(),
         ex_k1: excluded(EXCLUDE_KNOWN_UNRESOLVABLE_SUMMARY, "K1") && !case.allow_known,
-        ex_k2: excluded(EXCLUDE_KNOWN_HALF_CREATED_CHILD, "K2") && !case.allow_known,
         nontrivial: false,
     };
     // ---- source history
@@ -968,14 +885,8 @@ fn one_request(world: &mut World, ctx: &mut Ctx, main: &str, i: usize, req: &Req
         }
     }
 
-    // ---- the call (under an injected storage fault in a generated share of cases)
-    let guard = inject(&world.it.sandbox.ws, &world.it.sandbox.data, req.fault);
-    let faulted = guard.active();
-    if faulted {
-        rep.class(format!("fault:{:?}", req.fault));
-    }
+    // ---- the call
     let called = catch(|| world.call(req.handoff, &args, req.explicit_nulls));
-    guard.undo();
     let mut panicked: Option<String> = None;
     let out = match called {
         Ok(o) => o,
@@ -1027,7 +938,7 @@ fn one_request(world: &mut World, ctx: &mut Ctx, main: &str, i: usize, req: &Req
                "args": {"from_message_id": from_mid.as_deref().map(clip), "from_seq": from_seq,
                          "summary_markdown": md.as_deref().map(clip), "summary_artifact_id": art},
                "expect": format!("{expect:?}"), "outcome": format!("{:?}", out.ok), "error": out.err,
-               "fault": format!("{:?}", req.fault), "more": extra})
+               "more": extra})
     };
 
     // ---- outcome against the model
@@ -1037,7 +948,6 @@ fn one_request(world: &mut World, ctx: &mut Ctx, main: &str, i: usize, req: &Req
         rep.count("failures", 1);
         match &expect {
             Expect::Fail(reason) => rep.count(&format!("failed_as_expected_{reason}"), 1),
-            Expect::Cut { .. } if faulted => rep.count("failed_under_fault", 1),
             Expect::Cut { .. } if lenient_summary => rep.count("failed_on_non_bundle_artifact_id", 1),
             Expect::Cut { .. } => {
                 let cause = if panicked.is_some() { "panic" } else { "error" };
@@ -1046,27 +956,16 @@ fn one_request(world: &mut World, ctx: &mut Ctx, main: &str, i: usize, req: &Req
         }
         // (e) nothing appended, no new thread listed
         if !suffix.is_empty() || !new_listed.is_empty() {
-            let half_created = faulted
-                && suffix.len() == 1
-                && suffix[0].typ() == "continuity_created"
-                && !streams_before.contains(suffix[0].stream_id())
-                && new_listed.iter().all(|id| id.as_str() == suffix[0].stream_id());
-            let sig = if half_created {
-                format!("half_created_child|{op}|{:?}", req.fault)
-            } else if !suffix.is_empty() {
+            let sig = if !suffix.is_empty() {
                 format!("failure_appended_frames|{op}")
             } else {
                 format!("failure_listed_thread|{op}")
             };
-            if half_created && ctx.ex_k2 {
-                rep.count("excluded_known_K2_half_created_child", 1);
-            } else {
-                rep.fail(
-                    sig,
-                    detail(json!({"appended": suffix.iter().map(|l| clip(&String::from_utf8_lossy(&l.raw))).collect::<Vec<_>>(),
-                                  "newly_listed": new_listed})),
-                );
-            }
+            rep.fail(
+                sig,
+                detail(json!({"appended": suffix.iter().map(|l| clip(&String::from_utf8_lossy(&l.raw))).collect::<Vec<_>>(),
+                              "newly_listed": new_listed})),
+            );
         }
         let orphan_blobs = blob_ids(&world.it).difference(&blobs_before).count();
         rep.count("orphan_blobs_after_failure", orphan_blobs as u64);
@@ -1282,7 +1181,6 @@ fn one_request(world: &mut World, ctx: &mut Ctx, main: &str, i: usize, req: &Req
         // persisted and its id recorded
         if sum_label == "markdown" {
             match rec_art {
-                None if faulted => rep.count("succeeded_under_fault_without_bundle", 1),
                 None => rep.fail(format!("summary|{op}|no_bundle_recorded_for_markdown"), detail(json!(null))),
                 Some(id) if !rec_blob => {
                     rep.fail(format!("summary|{op}|recorded_bundle_missing"), detail(json!({"summary_artifact_id": id})))
@@ -1331,8 +1229,7 @@ fn one_request(world: &mut World, ctx: &mut Ctx, main: &str, i: usize, req: &Req
         if req.restart_after {
             world.it.restart();
             rep.class("restart_after_request");
-            // under an injected index fault the persisted index (a cache) may lag: C04's subject
-            if !faulted && world.it.live.store.get(&child).is_none() {
+            if world.it.live.store.get(&child).is_none() {
                 rep.fail(format!("child_not_listed|{op}|after_restart"), detail(json!({"child": child})));
             }
         }
@@ -1367,11 +1264,11 @@ fn main() {
     check.assume("source histories are built through the real ContinuityStore API (messages, run_spawned/run_ended and run-linked frames via the H7b appenders, cursors, checkpoints, auto/schedule, restarts); no cache faults (C04) and no concurrency (C01) here");
     check.assume("model of the cut: from_seq => that seq (must be <= head as it was) + last continuity_message_appended at or before it; from_message_id => that id + max seq over the message frame and the run_spawned/run_ended frames naming it; none => head + last message; both / unknown / non-message id / no summary / unknown source => the call fails (ADR-0009, event_frames.md)");
     check.assume("within one case a single store instance serves every request and listing (the Interp store in `direct`, the router's engine in `http`): two live stores over one data dir is C18's subject");
-    check.assume("storage faults (file in the way of <ws>/.rip/artifacts[/blobs], directory in the way of continuities/index.json.tmp) are outside the property's quantifier; under a fault a valid request may either fail cleanly or succeed completely");
+    check.assume("storage failures (artifact store or index not writable) are outside the property's quantifier and are not injected");
     check.assume("a summary_artifact_id that names no blob, or names an artifact that is not a handoff bundle (a compaction summary), may be refused or accepted (event_frames.md: 'should reference a handoff context bundle artifact'): both outcomes pass, an acceptance must still carry a resolvable summary; id + markdown may record the given id or the id of a bundle the runtime wrote itself");
     check.assume("an empty title and no title are not distinguished; HTTP success status 201 and the provenance defaults actor_id=user / origin=server are taken from ADR-0009 and the handler's OpenAPI annotation");
     check.assume("message ids of another thread, empty-string ids and case-changed uuids are not generated (the docs do not say whether they resolve)");
-    let rule = "generated source history (turns + noise), then 1-4 generated branch/handoff requests (selector x summary x title x provenance x source in {main, child, unknown} x storage fault); model computed from the raw truth frames of the source before each call. non-trivial = a request with a selector other than `none` on a source with >=2 messages and >=1 run; distinct by case hash";
+    let rule = "generated source history (turns + noise), then 1-4 generated branch/handoff requests (selector x summary x title x provenance x source in {main, child, unknown}); model computed from the raw truth frames of the source before each call. non-trivial = a request with a selector other than `none` on a source with >=2 messages and >=1 run; distinct by case hash";
     let n = check.cases(8_000, 200_000);
     check.group("direct", rule, GroupOpts { cases: n, ..Default::default() }, || case_strategy(5, 12, 4), |c: &Case| run(c, false));
     let n = check.cases(250, 6_250);
@@ -1379,7 +1276,7 @@ fn main() {
         "http",
         "same cases, every request and listing through the real router (POST /threads/{id}/branch|handoff, GET /threads[/id]) built over the directories the history was written to; non-trivial as above",
         // a router costs ~70 ms to build: keep shrinking of an http failure bounded
-        GroupOpts { cases: n, max_shrink_iters: 150, ..Default::default() },
+        GroupOpts { cases: n, max_shrink_iters: 60, ..Default::default() },
         || case_strategy(4, 8, 6),
         |c: &Case| run(c, true),
     );
